@@ -526,8 +526,15 @@ archive_read_open1(struct archive *_a)
 
 	a->archive.state = ARCHIVE_STATE_HEADER;
 
-	/* Ensure libarchive starts from the first node in a multivolume set */
-	client_switch_proxy(a->filter, 0);
+	/*
+	 * Ensure libarchive starts from the first node in a multivolume set.
+	 * If the bidders' read-ahead already crossed into a later node, the
+	 * filter holds buffered data that belong to that node: going back to
+	 * the first node would release the buffer they live in and replay
+	 * the first node's bytes, so leave the cursor where it is.
+	 */
+	if (a->filter->avail == 0 && a->filter->client_avail == 0)
+		client_switch_proxy(a->filter, 0);
 	return (e);
 }
 
